@@ -417,6 +417,12 @@ fn real_main(args: Vec<String>) -> i32 {
             }
             0
         }
+        Some("triggers") => {
+            let src = read_stdin();
+            let root = syn::parse(&src);
+            println!("{:?}", vlib::known::triggers(&src, &root));
+            0
+        }
         Some("tree") => {
             let src = read_stdin();
             println!("{:#?}", syn::parse(&src));
